@@ -24,6 +24,9 @@ REGISTRY = {
 }
 NOT_APPLICABLE = {}
 
+# properties whose check is complete and claimed in MANIFEST.json (maintained by the orchestrating session)
+READY = ["C10", "C12", "C14", "C16", "C19", "C20"]
+
 # per-property entries live in checks/reg_cXX.py (each defines ENTRY = {"Cxx": {...}} and optionally NA = {...})
 import glob as _g, os as _o, importlib.util as _u
 for _f in sorted(_g.glob(_o.path.join(_o.path.dirname(_o.path.abspath(__file__)), "reg_*.py"))):
